@@ -439,6 +439,10 @@ fn run_history(dir: &Path, img: &Image, ops: &[Op]) -> (Vec<String>, usize) {
     // a handle opened before any rewrite: a manifest parsed afresh through it must read what is
     // on disk now (every block is cut from the file when it is parsed)
     let long_lived = jubako::tools::open_pack(&entry).ok();
+    // a reader that stays open across the whole history (an application serving contents while an
+    // administrator relocates packs): for a one-file container, where every pack lies inside the
+    // file, whatever it reads of packs, contents, indexes and entries must stay what was written
+    let serving = if img.one_file { jubako::reader::Container::new(&entry).ok() } else { None };
     let mut stale_handle_reads = 0u64;
     // expand RestoreAll into individual sets
     let mut flat: Vec<Op> = vec![];
@@ -694,6 +698,22 @@ fn run_history(dir: &Path, img: &Image, ops: &[Op]) -> (Vec<String>, usize) {
                         other => bad.push(format!("{step}: Container::check() answers {:?}", other.map_err(|e| dump::err_class(&e)))),
                     }
                 }
+            }
+        }
+        if let (Some(c), true) = (&serving, si % 3 == 1) {
+            let mut d = Dump::default();
+            dump::dump_opened(c, &img.spec, &mut d);
+            let want: Vec<(String, Leaf)> = strip_locations(&img.pristine)
+                .into_iter()
+                .filter(|(p, _)| !p.starts_with("manifest/") && !p.starts_with("file/") && p != "open")
+                .collect();
+            let got = strip_locations(&d);
+            if got != want {
+                let first = want.iter().zip(got.iter()).find(|(a, b)| a != b).map(|(a, b)| format!("{}: {} -> {}", a.0, a.1.short(), b.1.short()));
+                bad.push(format!(
+                    "{step}: a container that was open before the history started reads something else now: {}",
+                    first.unwrap_or_else(|| format!("{} leaves instead of {}", got.len(), want.len()))
+                ));
             }
         }
         if img.one_file && si % 3 == 0 {
